@@ -163,6 +163,38 @@ def is_valid_c06(m, asn4):
     return True
 
 
+
+def rest_values(res, tier):
+    """C06 "the same path through BGP.send_update": numeric attribute values asked for over REST (send/update and
+    json_to_bin, real Flask views in front of a real Established session, iBGP and eBGP) are what is written to the peer -
+    the value given, boundary values included, not a default the view would fill in for an ABSENT attribute."""
+    import impl_xc as X
+    vals = [0, 1, 100, 2 ** 16, 2 ** 31, 2 ** 32 - 1]
+    for remote_as, what in ((65001, 'ibgp'), (65002, 'ebgp')):
+        rest = X.Rest('as4', remote_as=remote_as)
+        if rest.state != 'ESTABLISHED':
+            res.disagree('session setup for the REST value oracle', what, rest.state, 'ESTABLISHED')
+            continue
+        for endpoint in ('send/update', 'json_to_bin'):
+            for code, flags in ((4, 0x80), (5, 0x40)):
+                for v in vals:
+                    out = rest.post_attr(endpoint, code, v)
+                    want = '%02x%02x04%08x' % (flags, code, v)
+                    res.stats.case(('rest-value', what, endpoint, code, v), sample=None)
+                    res.stats.hit('rest_value_' + what)
+                    if out.get('hex') != want:
+                        res.fail('C06', 'attribute %d asked for with value %d over REST %s (%s session) is not what is sent: %r'
+                                 % (code, v, endpoint, what, out),
+                                 {'suite': 'update', 'rest_value': {'session': what, 'endpoint': endpoint, 'code': code, 'value': v},
+                                  'sent': out, 'expected': want}, key='rest-value')
+            for v in (0, 1, 2):
+                out = rest.post_attr(endpoint, 1, v)
+                res.stats.case(('rest-value', what, endpoint, 1, v), sample=None)
+                if out.get('hex') != '400101%02x' % v:
+                    res.fail('C06', 'ORIGIN %d asked for over REST %s (%s session) is not what is sent: %r' % (v, endpoint, what, out),
+                             {'suite': 'update', 'rest_value': {'session': what, 'endpoint': endpoint, 'code': 1, 'value': v},
+                              'sent': out}, key='rest-value')
+
 def run(seed, tier, driver):
     res = SuiteResult('update')
     r = rng_for(seed, 'update', tier)
@@ -271,6 +303,7 @@ def run(seed, tier, driver):
             res.stats.hit('parse_sub_error_%s' % io['sub_error'])
         if io != mo:
             res.disagree('Update.parse', {'hex': b.hex(), 'asn4': asn4, 'addpath': addpath}, io, mo)
+    rest_values(res, tier)
     return res
 
 
